@@ -15,7 +15,7 @@ BUILTINS = {'len', 'abs', 'min', 'max', 'range', 'slice', 'isinstance', 'int', '
             'sum', 'set', 'dict', 'frozenset', 'id', 'type', 'hash', 'getattr', 'repr', 'print', 'zip_longest', 'chain'}
 EXC_NAMES = {'RuntimeError', 'KeyError', 'IndexError', 'ValueError', 'TypeError', 'NotImplementedError',
              'StopIteration', 'AttributeError', 'Exception', 'ZeroDivisionError', 'LookupError'}
-SPECFNS = {'kind_is', 'np_result_type', 'W', 'frozen', 'same_array', 'dtype_class', 'implies', 'iff', 'forall', 'exists', 'forall_in', 'exists_in', 'old', 'cond', 's_start', 's_stop',
+SPECFNS = {'ub', 'kind_is', 'np_result_type', 'W', 'frozen', 'same_array', 'dtype_class', 'implies', 'iff', 'forall', 'exists', 'forall_in', 'exists_in', 'old', 'cond', 's_start', 's_stop',
            's_step', 'nth', 'in_slice', 'length', 'at', 'is_none', 'some', 'slice_len_le', 'true', 'false',
            'at_or', 'R_len', 'sum_to'}
 
@@ -373,6 +373,8 @@ class ModuleEnv:
             return args[0]
         if name == 'hasattr':
             return VUnknown('hasattr')
+        if name == 'id' and len(args) == 1 and isinstance(args[0], VRec) and 'cid' in args[0].fields:
+            return args[0].fields['cid']        # ghost object identity
         return VUnknown(f'builtin {name}')
 
     def range_len(self, r):
@@ -591,6 +593,11 @@ class ModuleEnv:
         vals = [eng.ev(x, st) for x in a]
         if name == 'is_none':
             return VBool(eng.identical(vals[0], VNone(), st))
+        if name == 'ub':        # ub('name', i, j, ...): uninterpreted Boolean function of integers (cell predicates)
+            fname = vals[0].py
+            xs = [eng.need_int(v, st, node).t for v in vals[1:]]
+            f = z3.Function('ub_' + fname, *([z3.IntSort()] * len(xs) + [z3.BoolSort()]))
+            return VBool(f(*xs))
         if name == 'length':
             if isinstance(vals[0], VList):
                 return VInt(vals[0].length)
